@@ -219,17 +219,38 @@ theorem predictorOf_one (parms : Option Dict) (h : NoPredictor parms) :
       | int v => simp [toFObj, h P rfl v hg]
       | _ => rfl
 
-/-- the /DecodeParms dictionary `P` carries the predictor parameters `p` (/Colors and
-    /BitsPerComponent may be absent: 1 and 8), within the sizes C07's round trip is stated for -/
+/-- the /DecodeParms dictionary `P` carries the predictor parameters `p`: each of /Columns, /Colors and
+    /BitsPerComponent written out, or absent when its value is the default of ISO 32000-1 Table 8
+    (`PredSpec.defaultColumns` = 1, `defaultColors` = 1, `defaultBpc` = 8), within the sizes C07's round
+    trip is stated for -/
 structure ParmsOf (P : Dict) (p : PredSpec.Params) : Prop where
   pred : dictGet Loader.kPredictor P = some (.int (p.predictor : Int))
-  cols : dictGet Loader.kColumns P = some (.int (p.columns : Int))
-  colors : dictGet Loader.kColors P = some (.int (p.colors : Int)) ∨ (dictGet Loader.kColors P = none ∧ p.colors = 1)
-  bpc : dictGet Loader.kBpc P = some (.int (p.bpc : Int)) ∨ (dictGet Loader.kBpc P = none ∧ p.bpc = 8)
+  cols : dictGet Loader.kColumns P = some (.int (p.columns : Int)) ∨
+    (dictGet Loader.kColumns P = none ∧ p.columns = PredSpec.defaultColumns)
+  colors : dictGet Loader.kColors P = some (.int (p.colors : Int)) ∨
+    (dictGet Loader.kColors P = none ∧ p.colors = PredSpec.defaultColors)
+  bpc : dictGet Loader.kBpc P = some (.int (p.bpc : Int)) ∨
+    (dictGet Loader.kBpc P = none ∧ p.bpc = PredSpec.defaultBpc)
   acc : p.accepted
   colsLt : p.columns < 18446744073709551616
   fit1 : p.colors * p.bpc < 18446744073709551616
   fit2 : p.columns * p.colors * p.bpc < 18446744073709551616
+
+/-- what the loader's predictor tail computes on the translated /DecodeParms dictionary: the option glue
+    reads every absent entry as the specification's default (`C07.transformTail_spelled`) -/
+theorem ext_post_spelled (P : Dict) (p : PredSpec.Params) (data : Bytes) (hP : ParmsOf P p) :
+    Loader.ext.post (toFKvs P) data =
+      Pred.transformTail (some (p.predictor : Int)) (some (p.colors : Int)) (some (p.columns : Int))
+        (some (p.bpc : Int)) data := by
+  have sp : ∀ (k : Bytes) (v dflt : Nat),
+      (dictGet k P = some (.int (v : Int)) ∨ (dictGet k P = none ∧ v = dflt)) →
+      PredSpec.Spelled v dflt (Loader.fInt (toFKvs P) k) := by
+    intro k v dflt h
+    rcases h with h | ⟨h, e⟩
+    · exact .inl (LoaderE2E.fInt_toFKvs_some P _ _ h)
+    · exact .inr ⟨LoaderE2E.fInt_toFKvs_none P _ h, e⟩
+  exact C07.transformTail_spelled p _ _ _ _ data (sp _ _ _ (.inl hP.pred)) (sp _ _ _ hP.colors)
+    (sp _ _ _ hP.cols) (sp _ _ _ hP.bpc)
 
 /-- **Flate + predictor layer**: any zlib stream that inflates to the forward-filtered rows (C07's
     `PredSpec.predict`), decoded by the loader's FlateDecode with these /DecodeParms, yields the rows. -/
@@ -247,7 +268,7 @@ theorem flate_pred_layer (P : Dict) (p : PredSpec.Params) (rows : List Bytes) (e
   simp only [toF, names_eq.1, if_true, Option.map_some]
   rw [LoaderE2E.flateDecode_post Loader.ext _ _ _ hp1 hinf]
   simp only [Option.getD_some]
-  rw [LoaderE2E.ext_post_toFKvs P p _ hP.pred hP.cols hP.colors hP.bpc]
+  rw [ext_post_spelled P p _ hP]
   exact C07.predictor_roundtrip p rows hP.acc hP.colsLt hP.fit1 hP.fit2 hrows hne
 
 /-- a layer without predictor: C06's `layer_roundtrip` through the loader's decoder -/
